@@ -10,7 +10,7 @@ EXPLANATION = ("Real StopgapMotl.convert_to_sg_motl / sg_df_reset_index / conver
 ASSUMPTIONS = ["N = 2 (quick) / 3 (thorough) particles, every shared field an independent real in [-1000,1000]; orientation columns are plain reals here (no trigonometry involved in a renaming)",
                "subtomogram numbers from the finite domain {1,2,5,8} (both parities, non-sequential), pairwise distinct not required",
                "frame index labels: default 0..N-1 and a list with gaps/unsorted labels (reachable after remove_feature etc.)"]
-OUTSIDE = ["the via-.star-file path for numeric cells (float<->text conversion has no SMT theory; structure of STAR I/O is covered by C02)",
+OUTSIDE = ["the via-.star-file path for ARBITRARY numeric cells (float<->text conversion has no SMT theory): the via-file jobs use concrete cell values that are exact in 6 decimals, with the subtomogram numbers / row order ranging over a finite domain by solver forks",
            "N > 3"]
 BOUNDS = {"quick": {"particles": 2}, "thorough": {"particles": 3}}
 EXPECTED_EXCEPTIONS = ()
@@ -132,12 +132,60 @@ def h_roundtrip(env, n=2, reset_index=False):
         env.check("roundtrip_shared_fields_%d" % i, env.and_(*[env.eq(a[em], r[em]) for em in PAIRS]))
 
 
+def h_via_file(env, n=3, reset_index=False, update_coord=False, reload_then_write=False):
+    """via-.star-file path.  Cell *values* are concrete (multiples of 1/4, so the 6-decimal text form is exact);
+    the subtomogram numbers - hence row order relative to ids and the parities - range over the finite domain."""
+    cm = env.module("cryomotl")
+    rows = []
+    for i in range(n):
+        r = {c: 0.0 for c in COLS}
+        for k, em in enumerate(PAIRS):
+            r[em] = 10.0 * (i + 1) + k + 0.25 * ((i + k) % 4)
+        r["subtomo_id"] = _conc(env, env.choice("subtomo_%d" % i, [8, 5, 2, 1]))
+        r["tomo_id"] = float(3 - i)
+        r["object_id"] = float(i + 1)
+        r["class"] = 1.0
+        rows.append(r)
+    df = pd.DataFrame({c: np.array([r[c] for r in rows], dtype=float) for c in COLS}, columns=COLS)
+    p1 = env.real_path("a.star")
+    sgm = cm.emmotl2stopgap(df.copy(), output_motl_path=p1, update_coordinates=False, reset_index=reset_index)
+    back = cm.StopgapMotl(p1)
+    exp = rows
+    if reload_then_write:
+        # load from a STOPGAP file, modify through the object, write again, reload: the file must hold the updated list
+        p2 = env.real_path("b.star")
+        back.write_out(p2, update_coord=update_coord, reset_index=reset_index)
+        exp = [row(back.df, i) for i in range(back.df.shape[0])]
+        back = cm.StopgapMotl(p2)
+    env.check("row_count", env.true() if back.df.shape[0] == len(exp) else _false(env))
+    if back.df.shape[0] != len(exp):
+        return
+    for i, r in enumerate(exp):
+        a = row(back.df, i)
+        for em in PAIRS:
+            env.check("file_field_%s_%d" % (em, i), env.true() if abs(float(a[em]) - float(r[em])) <= 1e-6 else _false(env))
+    sg = back.sg_df
+    for i, r in enumerate(exp):
+        hs = str(sg["halfset"].iloc[i]).strip()
+        env.check("file_halfset_parity_%d" % i, env.true() if hs == ("A" if float(r["subtomo_id"]) % 2 == 0 else "B") else _false(env))
+        env.check("file_motl_idx_%d" % i, env.true() if float(sg["motl_idx"].iloc[i]) == (float(i + 1) if reset_index else float(r["subtomo_id"])) else _false(env))
+
+
+def _conc(env, v):
+    if env.mode == "sym":
+        from sx import core
+        return float(core.concretize(v)) if core.is_sym(v) else float(v)
+    return float(v)
+
+
 def jobs(tier, seed):
     n = 2 if tier == "quick" else 3
     j = [("h_export", {"n": n, "reset_index": False}), ("h_export", {"n": n, "reset_index": True}),
          ("h_export", {"n": n, "reset_index": False, "index": "gaps"}),
          ("h_import", {"n": n, "via": "init"}), ("h_import", {"n": n, "via": "stopgap2emmotl"}),
-         ("h_roundtrip", {"n": 2, "reset_index": False})]
+         ("h_roundtrip", {"n": 2, "reset_index": False}),
+         ("h_via_file", {"n": 3, "reset_index": False}), ("h_via_file", {"n": 2, "reset_index": True}),
+         ("h_via_file", {"n": 2, "reset_index": False, "update_coord": True, "reload_then_write": True})]
     if tier == "thorough":
         j += [("h_export", {"n": 3, "reset_index": True, "index": "gaps"}), ("h_roundtrip", {"n": 3, "reset_index": True})]
     return j
